@@ -252,12 +252,12 @@ theorem flow_ctx_idem (d : List (Str × Str)) (k0 k : Str)
       | none => simp [ht] at h
       | some t =>
         simp only [ht] at h
-        cases ha : alookup t flowMainArg with
+        cases ha : alookup (strip pyWs t) flowMainArg with
         | none => simp [ha] at h
         | some a =>
           simp only [ha] at h
           cases h
-          exact S2 (t, k) (alookup_mem _ _ _ ha)
+          exact S2 (strip pyWs t, k) (alookup_mem _ _ _ ha)
     · simp only [hk, if_false] at h
       cases h
       exact ⟨hb, hk⟩
